@@ -74,9 +74,14 @@ func RunTaintJob(job *TaintJob) *TaintJobResult {
 			}
 			t0 := time.Now()
 			if rs.Analysis == "backtrace" {
-				br, _ := l.Backtrace(cfg)
+				br, full := l.Backtrace(cfg)
 				out.AnaS += time.Since(t0).Seconds()
 				out.Results[rs.Name] = append(out.Results[rs.Name], backtraceAsFlows(br))
+				if st := full.Graph.AnalyzerState; st != nil && len(job.GuardFuncs) > 0 {
+					for fn, offenders := range fragmentGuard(st, job.GuardFuncs) {
+						out.Waived[fn] = mergeSorted(out.Waived[fn], offenders)
+					}
+				}
 				continue
 			}
 			tr, res := l.Taint(cfg)
